@@ -80,6 +80,7 @@ type runner struct {
 	hdrs    []*wire.BlockHeader // by plan index; 0 = genesis
 	ids     map[bitcoin.Hash32]int
 	unknown bitcoin.Hash32
+	saved   bool
 }
 
 func (r *runner) id(h bitcoin.Hash32) int {
@@ -261,6 +262,7 @@ func (r *runner) exec(op Op) (o obs) {
 		}
 		return obs{kind: "unit"}
 	case "save":
+		r.saved = true
 		if err := r.repo.Save(r.ctx); err != nil {
 			if os.Getenv("VERIF_DEBUG") != "" {
 				fmt.Fprintln(os.Stderr, "save error:", err)
@@ -269,6 +271,9 @@ func (r *runner) exec(op Op) (o obs) {
 		}
 		return obs{kind: "unit"}
 	case "load":
+		if !r.saved { // nothing was saved: not a history of the model (migration / genesis init)
+			return obs{kind: "skip"}
+		}
 		repo := headers.NewRepository(r.cfg, r.store)
 		repo.DisableDifficulty()
 		err := repo.VerifLoad(r.ctx, op.D)
@@ -317,7 +322,7 @@ func coqCase(c *Case) (string, map[string]int) {
 	for _, op := range c.Ops {
 		o := r.exec(op)
 		if o.kind == "skip" {
-			st["skipped_mark_at_horizon"]++
+			st["skipped_"+op.K]++
 			continue
 		}
 		st["op_"+op.K]++
